@@ -17,22 +17,32 @@ func init() {
 			if !ok || fd.Body == nil {
 				continue
 			}
-			links := []string{}
+			// grouped by the temporary file (the receiver of the call): a function may publish two different files on two
+			// of its paths (DeleteObject: the promoted version, the delete marker), never one file twice
+			links := map[string][]string{}
+			order := []string{}
 			ast.Inspect(fd.Body, func(n ast.Node) bool {
 				ce, ok := n.(*ast.CallExpr)
 				if !ok {
 					return true
 				}
 				if se, ok := ce.Fun.(*ast.SelectorExpr); ok && se.Sel.Name == "link" && len(ce.Args) == 0 {
-					links = append(links, fmt.Sprint(fset.Position(ce.Pos()).Line))
+					recv := "?"
+					if id, ok := se.X.(*ast.Ident); ok {
+						recv = id.Name
+					}
+					if _, seen := links[recv]; !seen {
+						order = append(order, recv)
+					}
+					links[recv] = append(links[recv], fmt.Sprint(fset.Position(ce.Pos()).Line))
 				}
 				return true
 			})
-			if len(links) > 0 {
-				rows = append(rows, fmt.Sprintf("  (%s, %s)", coqStr(fd.Name.Name), "["+strings.Join(links, "; ")+"]"))
+			for _, recv := range order {
+				rows = append(rows, fmt.Sprintf("  (%s, %s)", coqStr(fd.Name.Name+":"+recv), "["+strings.Join(links[recv], "; ")+"]"))
 			}
 		}
-		text := "(* backend/posix/posix.go: per function, the lines of its calls of link() on a temporary file *)\n" +
+		text := "(* backend/posix/posix.go: per function and temporary file (\"function:variable\"), the lines of the calls of link() on it *)\n" +
 			"Definition posix_link_calls : list (string * list nat) := [\n" + strings.Join(rows, ";\n") + "\n].\n"
 		return "LinkCalls.v", text
 	})
